@@ -12,6 +12,13 @@ template<typename E> struct MkHSD { typedef HSet<E, momo::HashBucketDefault> T; 
 template<typename E, bool M> struct MkTS { typedef TSet<E, M> T; static const bool multi = M; static T make(int mgr) { return T(typename T::TreeTraits(), kit::MM(mgr)); } };
 template<typename E, bool M> struct MkTSD { typedef TSetD<E, M> T; static const bool multi = M; static T make(int mgr) { return T(typename T::TreeTraits(), kit::MM(mgr)); } };
 
+// default settings (ExtraCheckMode::assertion): since b307610 a functor that throws inside the debug-only extra check of
+// InsertCrt no longer turns into an assertion failure
+template<typename E> struct MkHSX { typedef momo::HashSet<E, momo::HashTraitsStd<E, KHash, KEq>, kit::MM> T; static const bool multi = false;
+	static T make(int mgr) { return T(typename T::HashTraits(8, KHash(kit::MULT), KEq()), kit::MM(mgr)); } };
+template<typename E, bool M> struct MkTSX { typedef momo::TreeSet<E, momo::TreeTraitsStd<E, KLess, M>, kit::MM> T; static const bool multi = M;
+	static T make(int mgr) { return T(typename T::TreeTraits(), kit::MM(mgr)); } };
+
 static void gen_values(Rnd& r, int mode, bool srcMulti, bool dstMulti, std::vector<int64_t>& src, std::vector<int64_t>& dst)
 {
 	int ns = r.chance(1, 8) ? 0 : r.range(1, r.chance(1, 3) ? 70 : 12);
@@ -51,8 +58,8 @@ static void merge_scenario(Report& rep, const char* name, uint64_t seed, int src
 		Rnd r(seed);
 		std::vector<int64_t> sv, dv;
 		gen_values(r, mode, MS::multi, MD::multi, sv, dv);
-		typename MS::T src = MS::make(srcMgr);
-		typename MD::T dst = MD::make(dstMgr);
+		typename MD::T dst = MD::make(dstMgr);      // declared first: the SOURCE is destroyed before the destination (a destination
+		typename MS::T src = MS::make(srcMgr);      // that still points into the source's crew after a swap shows up as a kit error)
 		for (int64_t v : sv) src.Insert(E(v));
 		for (int64_t v : dv) dst.Insert(E(v));
 		MSet src0 = values(src), dst0 = values(dst), init = plus(src0, dst0);
@@ -301,7 +308,7 @@ static const char* SCEN[] = {
 	"merge_hs_hs_eq", "merge_hs_hs_ne", "merge_hsd_hsd", "merge_hs_hsd_from",
 	"merge_ts_ts", "merge_tsm_tsm", "merge_ts_tsm",
 	"merge_tsd_tsd_eq", "merge_tsd_tsd_eq_ordered", "merge_tsd_tsd_eq_ordered_rev", "merge_tsd_tsd_ne", "merge_tsdm_tsdm_eq", "merge_tsdm_tsdm_ordered", "merge_tsd_tsd_eq_touching", "merge_tsdm_tsdm_touching", "merge_tsd_tsd_eq_ordered_big", "merge_tsd_tsd_eq_ordered_rev_big",
-	"merge_ts_hs", "merge_hs_ts", "merge_hsd_tsm", "merge_tsd_hsd_from",
+	"merge_hsx_hsx_extracheck", "merge_tsx_tsx_extracheck", "merge_tsx_hsx_extracheck", "merge_ts_hs", "merge_hs_ts", "merge_hsd_tsm", "merge_tsd_hsd_from",
 	"extract_hs_hs", "extract_ts_ts", "extract_hs_hsd", "extract_ts_tsm", "extract_tsm_tsm",
 	"insert_range_hsd", "insert_range_ts", "insert_range_tsm", "insert_il_hs", "insert_il_tsd",
 	"remove_pred_hsd", "remove_pred_hs", "remove_pred_ts", "remove_pred_tsm",
@@ -330,6 +337,9 @@ static void run_scenario(Report& rep, const std::string& s, uint64_t seed)
 	else if (s == "merge_tsdm_tsdm_touching") merge_scenario<E, MkTSD<E, true>, MkTSD<E, true>>(rep, n, seed, 1, 1, 3, true);
 	else if (s == "merge_tsd_tsd_eq_ordered_big") merge_scenario<E, MkTSD<E, false>, MkTSD<E, false>>(rep, n, seed, 1, 1, 11, false);
 	else if (s == "merge_tsd_tsd_eq_ordered_rev_big") merge_scenario<E, MkTSD<E, false>, MkTSD<E, false>>(rep, n, seed, 1, 1, 12, true);
+	else if (s == "merge_hsx_hsx_extracheck") merge_scenario<E, MkHSX<E>, MkHSX<E>>(rep, n, seed, 1, 2, 0, false);
+	else if (s == "merge_tsx_tsx_extracheck") merge_scenario<E, MkTSX<E, false>, MkTSX<E, false>>(rep, n, seed, 1, 1, 0, false);
+	else if (s == "merge_tsx_hsx_extracheck") merge_scenario<E, MkTSX<E, true>, MkHSX<E>>(rep, n, seed, 1, 2, 0, true);
 	else if (s == "merge_ts_hs") merge_scenario<E, MkTS<E, false>, MkHS<E>>(rep, n, seed, 1, 2, 0, false);
 	else if (s == "merge_hs_ts") merge_scenario<E, MkHS<E>, MkTS<E, false>>(rep, n, seed, 1, 1, 0, false);
 	else if (s == "merge_hsd_tsm") merge_scenario<E, MkHSD<E>, MkTS<E, true>>(rep, n, seed, 2, 1, 0, false);
